@@ -173,6 +173,31 @@ def run_case(case):
     check_untouched("after get_result()")
     out2 = r.get_result()
     check_untouched("after 2nd get_result()")
+
+    # aliasing, by object identity: no mutable container reachable from an output may be one of the caller's (or of another output's)
+    def containers(o, acc):
+        if isinstance(o, (dict, list)):
+            if id(o) in acc:
+                return acc
+            acc[id(o)] = o
+            for v in o.values() if isinstance(o, dict) else o:
+                containers(v, acc)
+        return acc
+
+    mine = containers(tth, containers(tob, {}))
+    for lab, o_ in (("1st", out1), ("2nd", out2)):
+        theirs = containers(o_.theory, containers(o_.observables, containers(dict(o_), {})))
+        shared = [v for k_, v in theirs.items() if k_ in mine]
+        compared += 1
+        if shared:
+            viol.append(dict(sig="output-aliases-input", what=f"the {lab} output holds {len(shared)} of the caller's own card containers (e.g. {type(shared[0]).__name__} with {len(shared[0])} entries) instead of copies: later edits of the cards rewrite what the output recorded, and vice versa"))
+            break
+    t1_, t2_ = containers(dict(out1), {}), containers(dict(out2), {})
+    if set(t1_) & set(t2_):
+        compared += 1
+        viol.append(dict(sig="outputs-share-state", what="two outputs of the same runner share mutable containers (editing one result edits the other)"))
+    if viol:
+        return dict(violations=viol, compared=compared, nontrivial=[], classes=sorted(classes), probes=dict(tracked_reads=READS[0]), sample=None)
     pdf = pdfs.make(pdfs.SmoothPDF.random(np.random.default_rng(1)))
     out1.apply_pdf_alphas_alphaqed_xir_xif(pdf, lambda q: 0.2, lambda q: 0.0078, 1.0, 1.0)
     out1.dump_yaml()
